@@ -19,6 +19,7 @@ Ev == IF OidIsPath
       ELSE [op : {"update"}, side : GSides, otype : {1, 2}, path : PathsU \cup {<<>>}, oid : Oids, hash : {0, 1, 2}, exists : {0, 1},
             prior : {<<>>}]
 Other == [op : {"discard"}, side : GSides, oid : Oids, path : PathsU]
+         \cup [op : {"forget"}, side : GSides, oid : {1}, path : {<<10, 1>>}]      \* SyncState.forget(): everything goes, pending set included
 
 Init == h = <<>>
 Next == Len(h) < MaxLen /\ \E e \in Ev \cup Other : h' = Append(h, e)
